@@ -588,7 +588,16 @@ def compute_mro(cls:'Class') -> Sequence[Union['Class', str]]:
                     finalbases.append(base.fullName())
                 else:
                     # Only re-resolve the base object if the base was None.
-                    resolved_base = o.parent.resolveName(str_base)
+                    # Try the name as it was expanded in the scope where the
+                    # class was defined first: the class might have been
+                    # reparented since, and its new parent does not
+                    # necessarily bind the same names.
+                    try:
+                        resolved_base = o.system.find_object(o._initialbases[i])
+                    except LookupError:
+                        resolved_base = None
+                    if not isinstance(resolved_base, Class):
+                        resolved_base = o.parent.resolveName(str_base)
                     if isinstance(resolved_base, Class):
                         base = resolved_base
                         finalbaseobjects.append(base)
